@@ -8,3 +8,4 @@ import SimuVerif.Properties.C01
 import SimuVerif.Properties.C11
 import SimuVerif.Properties.C10
 import SimuVerif.Properties.C02
+import SimuVerif.Properties.C15
